@@ -853,12 +853,19 @@ def describe(prop):
                 "and (operation, fault kind, mode) combinations; non-trivial = the run injected at least one fault",
         "fault_kinds": ["user-function-raise", "injected-exception-modeA (pypose/user frames)", "injected-exception-modeB (any frame, forked)"],
         "real": ["pypose.retain_ltype", "pypose.func.jacrev", "torch.func.jacrev / vmap / jacfwd and their internals", "LieTensor "
-                 "operations and __torch_function__"],
-        "stub": ["wrapped user functions", "sys.settrace exception injector", "fork wrapper for mode B"],
+                 "operations and __torch_function__", "everything the other simulators run for real (controllers, IMU integrator, "
+                 "systems, LQR / MPC, filters, GN / LM), under the boundary monitor"],
+        "stub": ["wrapped user functions", "sys.settrace exception injector", "fork wrapper for mode B",
+                 "boundary wrappers around pypose's public callables (only inside the forked child of a 'foreign' operation)"],
         "assumptions": ["the wrapped region is the dynamic extent of pypose.func.jac's wrapper_fn / of the with-body; the context "
                         "manager's own enter/exit code is not 'inside the wrapped function' and is not injected",
                         "retain_ltype's permanent rewrite of _add_batch_dim.__module__ and the stray attribute `wrapper` left on "
                         "pypose.lietensor.lietensor by nested use are not part of the oracle",
-                        "the broadcasting / view-transparency clause of C06 is not decided; the non-mutation clause only as a "
-                        "monitor over the ~23 API calls listed in the engine (quat2unit, ape/rpe are not among them)"],
+                        "the broadcasting / view-transparency clause of C06 is not decided; the non-mutation clause is decided "
+                        "by three monitors: the LieTensor API list (contiguous and strided arguments, gaps of the strided base "
+                        "checked), the list of public helpers and composite calls, and the boundary monitor (core/boundary.py): "
+                        "the workloads of ctrlsim / imusim / clocksim / lqrsim / filtersim / optsim executed in a forked child "
+                        "with every public callable of pypose outside pypose.lietensor wrapped; tensors in the arguments of a "
+                        "call entered from harness code are recorded with a copy and compared on return, at every later "
+                        "boundary call and at the end of the run; nn.Parameter arguments and names ending in '_' are exempt"],
     }
